@@ -1,7 +1,7 @@
 ------------------------------- MODULE OsEnv -------------------------------
 (* Contracts of the functions that wrap a libc / operating-system service into the
    bounds-checked interface: strerror_s, asctime_s, ctime_s, getenv_s, gmtime_s,
-   localtime_s, gets_s.  The text such a function has to deliver is what its standard
+   localtime_s, gets_s, fopen_s, freopen_s, tmpfile_s.  The text such a function has to deliver is what its standard
    counterpart delivers (recorded next to the call as ref); for asctime the text is also
    defined here (Asctime), and every recorded reference is checked against it.  The _s layer
    is what is specified: which calls are violations, what dest holds afterwards (the text
@@ -100,9 +100,32 @@ WhyGets(e) ==     \* args = nin, bytes...
      ELSE IF Len(line) < e.dmax THEN (IF e.rc # 0 THEN "C06:spurious_failure" ELSE IF e.hn # 0 THEN "C05:handler_on_success" ELSE Holds(e, line))
      ELSE Fail(e, {}, "line_too_long")
 
+(* fopen_s / freopen_s / tmpfile_s: the stream pointer object is the result.  e.sp: 0 null, 1 a stream, 2 left as it was;
+   e.referr: errno of the standard function with the same arguments (0: it succeeds; -1: not called).  Documented: a null
+   argument is a violation (ESNULLP, one handler call), nothing is opened then, and whenever no file was opened the
+   pointer object - if there is one - is set to null.  A file that cannot be opened is a failure, not a violation: the
+   error code is returned (the library also passes it to the handler: admitted, at most once and with that code). *)
+WhyOpen(e, spnull, anynull, which) ==
+  IF spnull THEN (IF e.rc # ESNULLP THEN "C05:null_stream_pointer_wrong_code" ELSE IF e.hn # 1 THEN "C05:null_stream_pointer_handler_calls" ELSE "")
+  ELSE IF anynull THEN
+       (IF e.rc # ESNULLP THEN "C05:null_argument_wrong_code" ELSE IF e.hn # 1 THEN "C05:null_argument_handler_calls"
+        ELSE IF e.sp # 0 THEN "C04:stream_pointer_not_nulled_on_violation" ELSE "")
+  ELSE IF e.referr = 0 THEN
+       (IF e.rc # 0 THEN "C06:spurious_failure" ELSE IF e.hn # 0 THEN "C05:handler_on_success" ELSE IF e.sp # 1 THEN "C06:no_stream_on_success" ELSE "")
+  ELSE (IF e.rc = 0 THEN "C06:failure_of_the_standard_function_reported_as_success"
+        ELSE IF e.referr > 0 /\ e.rc # e.referr THEN "C05:error_code_differs_from_errno"
+        ELSE IF e.hn > 1 \/ (e.hn = 1 /\ e.h[1] # e.rc) THEN "C05:handler_calls"
+        ELSE IF e.sp # 0 THEN "C04:stream_pointer_not_nulled_on_failure" ELSE "")
+WhyFopen(e) == WhyOpen(e, e.args[1] = 1, e.args[2] = 1 \/ e.args[3] = 1, e.args[4])
+WhyFreopen(e) == WhyOpen(e, e.args[1] = 1, e.args[3] = 1 \/ e.args[4] = 1, e.args[5])      \* a null filename is the mode-change form
+WhyTmpfile(e) == IF e.args[1] = 1 THEN (IF e.rc # ESNULLP THEN "C05:null_stream_pointer_wrong_code" ELSE IF e.hn # 1 THEN "C05:null_stream_pointer_handler_calls" ELSE "")
+                 ELSE IF e.rc = 0 THEN (IF e.hn # 0 THEN "C05:handler_on_success" ELSE IF e.sp # 1 THEN "C06:no_stream_on_success" ELSE "")
+                 ELSE (IF e.hn > 1 \/ (e.hn = 1 /\ e.h[1] # e.rc) THEN "C05:handler_calls" ELSE IF e.sp # 0 THEN "C04:stream_pointer_not_nulled_on_failure" ELSE "")
+
 Why(e) ==
   IF e.fault = "w" THEN "C01:write_outside_dest" ELSE IF e.fault = "r" THEN "C02:read_fault" ELSE IF e.fault # "none" THEN "C06:fault_" \o e.fault
   ELSE IF ~e.frame_ok THEN "C01:write_in_front_of_dest"
   ELSE CASE e.fn = 1 -> WhyStrerror(e) [] e.fn = 2 -> WhyAsctime(e) [] e.fn = 3 -> WhyCtime(e) [] e.fn = 4 -> WhyGetenv(e)
-         [] e.fn \in {5, 6} -> WhyTime(e) [] e.fn = 7 -> WhyGets(e) [] OTHER -> "ORACLE:unknown_function"
+         [] e.fn \in {5, 6} -> WhyTime(e) [] e.fn = 7 -> WhyGets(e)
+         [] e.fn = 8 -> WhyFopen(e) [] e.fn = 9 -> WhyFreopen(e) [] e.fn = 10 -> WhyTmpfile(e) [] OTHER -> "ORACLE:unknown_function"
 =============================================================================
